@@ -543,7 +543,25 @@ def d2(ctx, prog, regs):
             if len(stores) == 1 and norm(stores[0].value).startswith(f'{kwp}[') and norm(stores[0]) != want_store:
                 ctx.fail('C07-D2', f'{f.key}::mapping', f'`{norm(stores[0])}`: the metadata tagged {tag_attr} is not what reaches the parameter named {name_attr}', f.where(stores[0]))
             else:
-                ctx.undecided('C07-D2', f'{f.key}::mapping', 'tag mapping shape not recognised', f.where())
+                # functional form: super().meth(**{..., self.name: kwargs[self.tag], ...}) - in a dict display the LAST entry wins
+                sup = [c for c in ast.walk(f.node) if isinstance(c, ast.Call) and norm(c.func) == f'super().{meth}' and not c.args and len(c.keywords) == 1 and c.keywords[0].arg is None
+                       and isinstance(c.keywords[0].value, ast.Dict)]
+                if len(sup) == 1 and not stores:
+                    dct = sup[0].keywords[0].value
+                    entries = list(zip(dct.keys, dct.values))
+                    pos_name = [i for i, (k_, v_) in enumerate(entries) if k_ is not None and norm(k_) == f'self.{name_attr}']
+                    pos_unpack = [i for i, (k_, v_) in enumerate(entries) if k_ is None and norm(v_) == kwp]
+                    if len(pos_name) == 1 and len(pos_unpack) == 1 and len(entries) == 2:
+                        val = norm(entries[pos_name[0]][1])
+                        if val != f'{kwp}[self.{tag_attr}]':
+                            ctx.fail('C07-D2', f'{f.key}::mapping', f'the parameter named {name_attr} receives `{val}`, not the metadata tagged {tag_attr}', f.where(sup[0]))
+                        else:
+                            ctx.check(pos_name[0] > pos_unpack[0], 'C07-D2', f'{f.key}::mapping', f'`{norm(dct)[:80]}`: the metadata are unpacked after the tagged entry, so a metadata field that is itself '
+                                      f'called like the parameter ({name_attr}) overrides the tagged value', f'{{**{kwp}, {name_attr}: {kwp}[{tag_attr}]}}: the tagged value wins', f.where(sup[0]))
+                    else:
+                        ctx.undecided('C07-D2', f'{f.key}::mapping', 'tag mapping shape not recognised', f.where())
+                else:
+                    ctx.undecided('C07-D2', f'{f.key}::mapping', 'tag mapping shape not recognised', f.where())
     # guesses reach the function unchanged
     asf = prog.need_class(BASE, '_AttackSelectionFunction')
     init = asf.methods.get('__init__')
